@@ -305,6 +305,48 @@ def gen_kern128(rng, quick):
     return cases
 
 
+Q30 = [1073479681, 1071513601, 1070727169, 1068236801]
+
+
+def gen_q120(rng, quick, consts):
+    """NTT120 integer kernels (c_from_b, from_znx64(+masked), mul_bbc): model vs nref/navx and nref vs navx"""
+    cases = []
+    U64 = (1 << 64) - 1
+    for rep in range(6 if quick else 60):
+        xs = []
+        for j in range(rng.range(1, 9)):
+            for k in range(4):
+                q = Q30[k]
+                xs.append(rng.choice([0, 1, q - 1, q, q + 1, 2 * q - 1, (q << 32) - 1, q << 32, (q << 33) - 1, (1 << 61) - 1, 1 << 32,
+                                      (1 << 32) - 1, rng.next() % (q << 33), rng.next() % (q << 33)]))
+        cases.append(dict(line=f"op=c_from_b x={ints(xs)}", fam="q120", op="c_from_b", adm=True, key=("q120", "c_from_b", len(xs) // 4, rep % 8), nt=True))
+        xs = [rng.choice([0, 1, -1, I64MAX, I64MIN, I64MIN + 1, 1 << 62, -(1 << 62), r64(rng), r64(rng)]) for _ in range(rng.range(1, 12))]
+        cases.append(dict(line=f"op=from_znx64 x={ints(xs)}", fam="q120", op="from_znx64", adm=True, key=("q120", "from_znx64", len(xs), rep % 8), nt=True))
+        m = rng.choice([-1, 0, -(1 << rng.range(1, 62)), I64MIN, r64(rng)])
+        cases.append(dict(line=f"op=from_znx64 mask={m} x={ints(xs)}", fam="q120", op="from_znx64_masked", adm=True,
+                          key=("q120", "from_znx64_masked", len(xs), rep % 8), nt=True))
+    meta = f"h={consts.get('bbc_h', 0)} s2l={consts.get('s2l', '-')} s2h={consts.get('s2h', '-')}"
+    for ell in ([1, 2, 3, 17, 256, 9999, 10000] if quick else [1, 2, 3, 4, 5, 17, 100, 256, 1000, 4096, 9999, 10000]):
+        for cls in ("max", "rand", "valid"):
+            xs, ys = [], []
+            for i in range(ell):
+                for k in range(4):
+                    q = Q30[k]
+                    if cls == "max":
+                        xs.append(U64)
+                        ys.append(U64)
+                    elif cls == "rand":
+                        xs.append(rng.next())
+                        ys.append(rng.next())
+                    else:
+                        r = rng.next() % q
+                        xs.append(rng.next() % (q << 33))
+                        ys.append(r | (((r << 32) % q) << 32))
+            cases.append(dict(line=f"op=mul_bbc x={ints(xs)} y={ints(ys)} {meta}", fam="q120", op="mul_bbc", adm=True,
+                              key=("q120", "mul_bbc", ell, cls), nt=True))
+    return cases
+
+
 COEFF_OPS = ["add_into", "add_assign", "sub", "sub_assign", "sub_negate_assign", "negate", "negate_assign", "add_scalar_into",
              "add_scalar_assign", "sub_scalar", "sub_scalar_assign", "rotate", "rotate_assign", "automorphism",
              "automorphism_assign", "mul_xp_minus_one", "mul_xp_minus_one_assign", "copy", "zero"]
@@ -679,6 +721,50 @@ def run(ctx):
                     broken.append(f"python oracle != implementation: {w1}")
                     witness = witness or dict(w1, kind="kernel-vs-oracle")
         ctx.cov["kernel_lines"] = len(jobs)
+        ctx.cov["kernel_lanes_compared"] = lanes_total
+
+        # ---- NTT120 integer kernels: constants, then model vs nref / navx
+        rc, co, _ = ctx.run_lines(binp, ["avx"], ["0 q120 be=nref op=consts", "1 q120 be=navx op=consts"])
+        rc2, cm, _ = ctx.run_lines(drv, [], ["0 avx q120 be=navx op=consts"])
+        consts = parse_lists(payload(co[0])) if co else {}
+        mconsts = parse_lists(payload(cm[0])) if cm else {}
+        ctx.cov["primes30_dump"] = consts
+        ctx.count_case(("q120", "consts"), nontrivial=True)
+        if not consts or payload(co[0]) != payload(co[1]) or consts.get("q") != mconsts.get("q") or consts.get("crt") != mconsts.get("crt"):
+            broken.append(f"Primes30 constants: crate {consts} vs Lean model {mconsts}")
+        else:
+            # hypotheses of C10.mat_vec_bbc_no_overflow on the dumped BbcMeta
+            hh = int(consts.get("bbc_h", 0))
+            s2 = [int(v) for v in (consts.get("s2l", "0") + "," + consts.get("s2h", "0")).split(",")]
+            if not (15 <= hh <= 32 and all(v < (1 << 30) for v in s2)):
+                broken.append(f"BbcMeta outside the proved range: h={hh} s2={s2}")
+        kq = gen_q120(rng.fork(), quick, consts)
+        jobs = [(c, be) for c in kq for be in ("nref", "navx")]
+        hl = [f"{i} q120 be={be} {c['line']}" for i, (c, be) in enumerate(jobs)]
+        ml = [f"{i} avx q120 be={be} {c['line']}" for i, (c, be) in enumerate(jobs)]
+        rc, hout, herr = ctx.run_lines(binp, ["avx"], hl)
+        rc2, mout, merr = ctx.run_lines(drv, [], ml)
+        if rc != 0 or len(hout) != len(jobs) or rc2 != 0 or len(mout) != len(jobs):
+            broken.append(f"q120 run failed rc={rc}/{rc2} answers={len(hout)}/{len(mout)}/{len(jobs)} {herr[-200:]} {merr[-200:]}")
+        resq = {}
+        for i, (c, be) in enumerate(jobs):
+            hh_ = payload(hout[i]) if i < len(hout) else "?"
+            mm_ = payload(mout[i]) if i < len(mout) else "?"
+            resq[(id(c), be)] = hh_
+            ctx.count_case(c["key"] + (be,), nontrivial=True)
+            bump("kern:q120")
+            lanes_total += hh_.count(",") + 1
+            if hh_ != mm_ or "stray" in hh_:
+                ctx.disagreements += 1
+                broken.append(f"q120 model != implementation: be={be} {c['line'][:160]} impl={hh_[:80]} model={mm_[:80]}")
+                witness = witness or {"kind": "q120-model-vs-impl", "be": be, "request": c["line"][:2000], "impl": hh_[:400], "model": mm_[:400]}
+        for c in kq:
+            ctx.count_case(c["key"] + ("nref=navx",), nontrivial=True)
+            if resq.get((id(c), "nref")) != resq.get((id(c), "navx")):
+                ctx.disagreements += 1
+                broken.append(f"Ref != AVX (q120): {c['line'][:200]}")
+                witness = witness or {"kind": "ref-vs-avx-q120", "request": c["line"][:2000]}
+        ctx.cov["q120_requests"] = len(jobs)
         ctx.cov["kernel_lanes_compared"] = lanes_total
 
     # ---- gate 3b: HAL operations, scheme programs, sampling on four back ends
